@@ -184,10 +184,18 @@ def stretch_call(rnd, name, box, params):
         if cur < 2 ** 30:
             break
     shift = rnd.choice([0, -f[hi] // 2, -f[hi], rnd.randint(-1000, 1000)])
-    if name.startswith("affine"):
+    big_coef = name.startswith("affine") and rnd.random() < 0.3
+    if big_coef:
+        # large coefficients on values up to ~10^5: every coefficient, bound and the constant are 32-bit integers, the
+        # products a_i * x_i are not (the documented relation is over the integers)
+        params = [ai * rnd.choice([1, 300, 50000, 70000]) for ai in params[:-1]] + [params[-1]]
+        while f[hi] + abs(shift) > 150000:
+            f = {u: v // 4 + (u - lo) for u, v in f.items()}
+            shift //= 4
+    elif name.startswith("affine"):
         # keep sum |a_i| max|x_i| + |c| below 2^31: scale the whole map down when needed
         a = params[:-1]
-        while sum(abs(ai) for ai in a) * (f[hi] + abs(shift) + 1) >= 2 ** 29:
+        while sum(abs(ai) for ai in a) * (f[hi] + abs(shift) + 1) >= 2 ** 30 - 2 ** 20:
             f = {u: v // 4 + (u - lo) for u, v in f.items()}
             shift //= 4
     g = {u: v + shift for u, v in f.items()}
@@ -201,6 +209,9 @@ def stretch_call(rnd, name, box, params):
         a = params[:-1]
         t = [rnd.randint(l, h) if rnd.random() < 0.5 else rnd.choice((l, h)) for l, h in nbox]
         npar[-1] = sum(ai * ti for ai, ti in zip(a, t)) + rnd.choice([0, 0, 0, 1, -1, 2, -3, 70000, -70000])
+        if abs(npar[-1]) >= 2 ** 31 - 1:
+            # the constant itself must be a 32-bit integer: fall back to a point near the origin of the box
+            npar[-1] = max(-(2 ** 31) + 2, min(2 ** 31 - 2, npar[-1])) if not big_coef else rnd.randint(-(10 ** 6), 10 ** 6)
     return nbox, npar
 
 
